@@ -784,3 +784,26 @@ func (P *Program) descBase(v ssa.Value, deep bool) string {
 	}
 	return P.desc(v, deep)
 }
+
+// ResolveThroughCalls: like ResolveDeep, but a call of a product function with a body is replaced by the origins
+// of the values it returns (depth-limited).
+func (P *Program) ResolveThroughCalls(v ssa.Value, depth int) []ssa.Value {
+	var out []ssa.Value
+	for _, r := range P.ResolveDeep(v) {
+		call, ok := r.(*ssa.Call)
+		var callee *ssa.Function
+		if ok {
+			callee = call.Call.StaticCallee()
+		}
+		if callee == nil || depth <= 0 || !P.IsProductFunc(callee) || len(callee.Blocks) == 0 {
+			out = append(out, r)
+			continue
+		}
+		allInstrs(callee, func(b *ssa.BasicBlock, ins ssa.Instruction) {
+			if ret, ok := ins.(*ssa.Return); ok && len(ret.Results) == 1 {
+				out = append(out, P.ResolveThroughCalls(ret.Results[0], depth-1)...)
+			}
+		})
+	}
+	return out
+}
